@@ -80,6 +80,18 @@ func epubMembers(e epubCfg) []zmember {
 		{"OEBPS/fonts/h.woff", "wOFFbytes", false},
 		{"OEBPS/img/i.png", "\x89PNG\r\n\x1a\nimg", false},
 	}
+	for _, k := range e.Enc {
+		if k == "ch3" {
+			// a third spine item that is not declared as XHTML and has none of the usual suffixes: an SVG content document
+			for i := range ms {
+				if ms[i].name == "OEBPS/content.opf" {
+					ms[i].data = strings.Replace(ms[i].data, `<item id="font"`, `<item id="ch3" href="text/plate.svg" media-type="image/svg+xml"/><item id="font"`, 1)
+					ms[i].data = strings.Replace(ms[i].data, `<itemref idref="ch2"/>`, `<itemref idref="ch2"/><itemref idref="ch3"/>`, 1)
+				}
+			}
+			ms = append(ms, zmember{"OEBPS/text/plate.svg", `<?xml version="1.0" encoding="UTF-8"?><svg xmlns="http://www.w3.org/2000/svg" viewBox="0 0 100 100"><text x="10" y="20">third` + c20Token + `</text></svg>`, false})
+		}
+	}
 	rights := zmember{"META-INF/rights.xml", `<?xml version="1.0"?><rights xmlns="http://ns.adobe.com/adept"/>`, false}
 	if e.Rights && e.RFirst {
 		ms = append(ms, rights)
@@ -92,7 +104,7 @@ func epubMembers(e epubCfg) []zmember {
 			"aes256":    "http://www.w3.org/2001/04/xmlenc#aes256-cbc",
 			"unknown":   "http://example.org/secret-cipher",
 		}[e.Algo]
-		paths := map[string]string{"ch1": "OEBPS/ch1.xhtml", "ch2": "OEBPS/ch2.xht", "nav": "OEBPS/nav.xhtml", "font": "OEBPS/fonts/f.otf", "font2": "OEBPS/fonts/g.ttf", "font3": "OEBPS/fonts/h.woff", "img": "OEBPS/img/i.png"}
+		paths := map[string]string{"ch1": "OEBPS/ch1.xhtml", "ch2": "OEBPS/ch2.xht", "nav": "OEBPS/nav.xhtml", "ch3": "OEBPS/text/plate.svg", "font": "OEBPS/fonts/f.otf", "font2": "OEBPS/fonts/g.ttf", "font3": "OEBPS/fonts/h.woff", "img": "OEBPS/img/i.png"}
 		var b strings.Builder
 		b.WriteString(`<?xml version="1.0" encoding="UTF-8"?><encryption xmlns="urn:oasis:names:tc:opendocument:xmlns:container" xmlns:enc="http://www.w3.org/2001/04/xmlenc#">`)
 		order := append([]string{}, e.Enc...)
